@@ -69,8 +69,10 @@ def fnum(v):
     return r + "d0"
 
 
-def driver_source(module, fields, init_args, nsteps):
-    """init_args: list of (fortran keyword, value) with value a number or a list of numbers."""
+def driver_source(module, fields, init_args, nsteps, shapes=None):
+    """init_args: list of (fortran keyword, value) with value a number or a list of numbers.
+    shapes: keyword -> shape tuple for initial values of more than one dimension (column-major order)."""
+    shapes = shapes or {}
     L = []
     a = L.append
     a("program verif_driver")
@@ -79,13 +81,18 @@ def driver_source(module, fields, init_args, nsteps):
     a("  type(dagrt_state_type), target :: st")
     a("  type(dagrt_state_type), pointer :: sp")
     a("  integer :: k, j")
+    a("  real*8, allocatable :: flat(:)")
     for kw, v in init_args:
         if isinstance(v, list):
-            a("  real*8, dimension(%d) :: arg_%s" % (len(v), kw))
+            a("  real*8, dimension(%s) :: arg_%s" % (", ".join(str(d) for d in shapes.get(kw, (len(v),))), kw))
     a("  sp => st")
     for kw, v in init_args:
         if isinstance(v, list):
-            a("  arg_%s = (/ %s /)" % (kw, ", ".join(fnum(x) for x in v)))
+            if kw in shapes:
+                a("  arg_%s = reshape((/ %s /), (/ %s /))" % (kw, ", ".join(fnum(x) for x in v),
+                                                            ", ".join(str(d) for d in shapes[kw])))
+            else:
+                a("  arg_%s = (/ %s /)" % (kw, ", ".join(fnum(x) for x in v)))
     call = ["dagrt_state=sp"]
     for kw, v in init_args:
         call.append("%s=%s" % (kw, "arg_" + kw if isinstance(v, list) else fnum(v)))
@@ -105,8 +112,9 @@ def driver_source(module, fields, init_args, nsteps):
             test = "associated" if fd["pointer"] else "allocated"
             a("    if (%s(%s)) then" % (test, ref))
             a("      write(*,'(A,I0,A,I0)') 'A %s ', size(%s), ' ', lbound(%s, 1)" % (name, ref, ref))
-            a("      do j = lbound(%s, 1), ubound(%s, 1)" % (ref, ref))
-            a("        write(*,'(A,ES25.17E3)') 'E ', %s(j)" % ref)
+            a("      flat = reshape(%s, (/ size(%s) /))" % (ref, ref))     # any rank, column-major
+            a("      do j = 1, size(flat)")
+            a("        write(*,'(A,ES25.17E3)') 'E ', flat(j)")
             a("      end do")
             a("    else")
             a("      write(*,'(A)') 'U %s'" % name)
@@ -115,6 +123,7 @@ def driver_source(module, fields, init_args, nsteps):
             a("    write(*,'(A,ES25.17E3)') 'F %s ', %s" % (name, ref))
     a("    flush(6)")
     a("  end do")
+    a("  if (allocated(flat)) deallocate(flat)")
     a("  call v_shutdown(dagrt_state=sp)")
     a("  write(*,'(A)') 'DONE'")
     a("  flush(6)")
